@@ -200,3 +200,20 @@ def eval_model(stream, input_literal, workdir):
         f.write("Eval vm_compute in ((%s) (%s)).\n" % (stream["model"], input_literal))
     rc, out, err = coqc(path, timeout=120, cwd=workdir)
     return (out if rc == 0 else out + err).strip()[:4000]
+
+
+def coqchk(relpaths, timeout=2400):
+    """Independent re-check (coqchk -o) of the compiled Props/Refuted modules and everything they depend on.
+    Returns (ok, summary_text).  ok = the checker accepted them and reports no axiom, no type-in-type, no
+    unsafe fixpoint, no assumed positivity."""
+    mods = ["N0." + r[:-2].replace("/", ".") for r in relpaths if r]
+    r = subprocess.run(["timeout", str(timeout), "coqchk", "-silent", "-o", "-Q", THEORIES, "N0"] + mods,
+                       cwd=COQ, stdout=subprocess.PIPE, stderr=subprocess.STDOUT, text=True)
+    out = r.stdout
+    i = out.find("CONTEXT SUMMARY")
+    summary = out[i:] if i >= 0 else out[-1500:]
+    ok = r.returncode == 0 and all(("* %s: <none>" % k) in summary for k in
+                                   ("Axioms", "Constants/Inductives relying on type-in-type",
+                                    "Constants/Inductives relying on unsafe (co)fixpoints",
+                                    "Inductives whose positivity is assumed"))
+    return ok, " ".join(summary.split())[:1200]
